@@ -282,7 +282,8 @@ def run(ctx):
     # ------------------------------------------------------------------ R5
     pr = prog.mod('protonate')
     pa = pr.func('Protonate.protonate_atom')
-    first = [s for s in pa.body if not (isinstance(s, ast.Expr) and isinstance(s.value, ast.Constant))]
+    from sa.astutil import effective
+    first = effective(pa.body)
     pa_atom = pa.args.args[1].arg
     ok = bool(first) and isinstance(first[0], ast.If) and norm(first[0].test) == pa_atom + '.is_protonated' \
         and block_always_exits(first[0].body)
